@@ -326,19 +326,19 @@ def body_swr(ctx, case):
 
 
 def sub_verb(ctx):
-    ctx.hyp(verb_case(), lambda c: body_verb(ctx, c), ctx.n(900, 24000))
+    ctx.hyp(verb_case(), lambda c: body_verb(ctx, c), ctx.n(2500, 24000))
 
 
 def sub_dsl(ctx):
-    ctx.hyp(dsl_case(), lambda c: body_dsl(ctx, c), ctx.n(500, 12000))
+    ctx.hyp(dsl_case(), lambda c: body_dsl(ctx, c), ctx.n(1500, 12000))
 
 
 def sub_top(ctx):
-    ctx.hyp(top_case(), lambda c: body_top(ctx, c), ctx.n(250, 6000))
+    ctx.hyp(top_case(), lambda c: body_top(ctx, c), ctx.n(700, 6000))
 
 
 def sub_swr(ctx):
-    ctx.hyp(swr_case(), lambda c: body_swr(ctx, c), ctx.n(150, 3000))
+    ctx.hyp(swr_case(), lambda c: body_swr(ctx, c), ctx.n(450, 3000))
 
 
 SUBCHECKS = [
